@@ -44,6 +44,7 @@ Init == /\ rec \in 1..Len(Batch) /\ l = 1 /\ st = "run"
         /\ cmds = [r \in Runs |-> 0] /\ dropped = {} /\ inAll = FALSE /\ added = {} /\ pendingAim = {} /\ maybe = {} /\ lax = {} /\ stopKind = "" /\ stopName = "" /\ cut = {}
 
 Live == {r \in Runs : phase[r] = "started"}
+BgRuns == {r \in Runs : R.bg[r]}              \* runs started in the background (spawn_job): they do not wait for the queue
 \* the runs a stop request is aimed at: the one executing now - for stop_job only if it has that name
 \* (e.cur: the run the controller holds as its current job when the request is made, 0 if none - it may
 \* have been taken from the queue without having entered execute() yet; if it starts it may not go on)
@@ -57,7 +58,7 @@ Step ==
                               /\ UNCHANGED <<phase, aimed, armed, after, cmds, dropped, inAll, pendingAim, maybe, lax, stopKind, stopName>>
           [] e.e = "started" ->
                  IF phase[e.r] # "queued" THEN Stop(FALSE, "a run started that was not queued (or started twice)", e.r)
-                 ELSE IF Live # {} THEN Stop(FALSE, "two queued runs execute at the same time", e.r)
+                 ELSE IF e.r \notin BgRuns /\ Live \ BgRuns # {} THEN Stop(FALSE, "two queued runs execute at the same time", e.r)
                  ELSE IF e.r \in dropped /\ \E q \in dropped : q # e.r /\ phase[q] # "queued"
                       THEN Stop(FALSE, "StopAllEmpties: a second run that was queued when stop-all returned was started", e.r)
                  ELSE /\ phase' = [phase EXCEPT ![e.r] = "started"] /\ Adv
